@@ -75,3 +75,57 @@ pub fn c13_set_threads() { set_all(1); }
 #[kani::unwind(6)]
 #[kani::stub(alloc::fmt::format, stub_format)]
 pub fn c13_set_move_overhead() { set_all(2); }
+
+// ---------------------------------------------------------------------------------------------
+// command level: the real `Uci::execute(SetOption)` before a search (`control` = None) and between searches
+// (`control` = Some: the handle of an earlier `go` is only cleared by `stop`)
+// ---------------------------------------------------------------------------------------------
+use crate::engine::uci::commands::UciCommand;
+use crate::engine::uci::verif_access as ua;
+
+/// see c17.rs: Kani 0.68 cannot compile the toolchain's `catch_unwind` intrinsic (reached from the `go` branch's JoinHandle drop glue)
+pub unsafe fn stub_catch_unwind<T>(try_fn: fn(*mut T), data: *mut T, _catch_fn: fn(*mut T, *mut u8)) -> bool { try_fn(data); false }
+
+fn setoption_cmd(which: u8) {
+    let mut buf = [0u8; 4];
+    let (len, v) = any_decimal(&mut buf);
+    let (min, max, _) = match which { 0 => range_of(&HashOption::DEF), 1 => range_of(&ThreadsOption::DEF), _ => range_of(&MoveOverheadOption::DEF) };
+    kani::assume(v >= min && v <= max);
+    // Hash: the engine under test holds the smallest table (0 MB); only the value that keeps that size is sent, because any other
+    // value runs Vec::resize over value * 65536 slots (outside reach - stated in the bounds)
+    if which == 0 { kani::assume(v == 0); }
+    let text = core::str::from_utf8(&buf[..len]).unwrap();
+    let earlier_go: bool = kani::any();
+    #[cfg(test)] println!("REPLAY-CASE {{\"option\":{},\"text\":\"{}\",\"earlier_go\":{}}}", which, text, earlier_go);
+    let kings = super::pos::BPos { pcs: [[0, 0, 0, 0, 0, 1 << 4], [0, 0, 0, 0, 0, 1 << 60]], white_to_move: true, rights: [[false; 2]; 2], ep: 64 };
+    let mut uci = ua::mk_uci(super::pos::game_of(&kings));
+    ua::set_hash_size(&mut uci, 0);
+    ua::set_control(&mut uci, earlier_go);
+    let name = match which { 0 => HashOption::NAME, 1 => ThreadsOption::NAME, _ => MoveOverheadOption::NAME };
+    let cmd = UciCommand::SetOption { name: String::from(name), value: String::from(text) };
+    let ok = ua::execute_ok(&mut uci, &cmd);
+    assert!(ok); // an Err ends the engine's main loop
+    let o = ua::options(&uci);
+    match which { 0 => assert!(o.hash_size == v), 1 => assert!(o.threads == v), _ => assert!(o.move_overhead == v) }
+    assert!(ua::table_slots(&uci) >= 1);
+    kani::cover!(earlier_go);
+    kani::cover!(!earlier_go && v == max);
+    std::mem::forget(uci);
+    std::mem::forget(cmd);
+}
+
+#[kani::proof]
+#[kani::unwind(6)]
+#[kani::stub(alloc::fmt::format, stub_format)]
+#[kani::stub(std::intrinsics::catch_unwind, stub_catch_unwind)]
+pub fn c13_setoption_cmd_hash() { setoption_cmd(0); }
+#[kani::proof]
+#[kani::unwind(16)]
+#[kani::stub(alloc::fmt::format, stub_format)]
+#[kani::stub(std::intrinsics::catch_unwind, stub_catch_unwind)]
+pub fn c13_setoption_cmd_threads() { setoption_cmd(1); }
+#[kani::proof]
+#[kani::unwind(16)]
+#[kani::stub(alloc::fmt::format, stub_format)]
+#[kani::stub(std::intrinsics::catch_unwind, stub_catch_unwind)]
+pub fn c13_setoption_cmd_move_overhead() { setoption_cmd(2); }
